@@ -170,6 +170,40 @@ PROPERTIES = {
              "acknowledge_inactive_eof_pdu.", [STUBS], [STUBS]),
 }
 
+PROPERTIES["C09"] = P(
+    "proof",
+    "NativeFilestore.calculate_checksum / verify_checksum and crc.calc_modular_checksum are proved over byte SEQUENCES for every file "
+    "content, prefix length >= 0 and chunk length >= 1: null type = four zero bytes; CRC types = CRC_t(content[0:min(size,len)]) via the "
+    "loop invariant 'bytes fed == content[0:min(offset,len)]' (variant size-offset); modular type = u32_be(sum of zero-padded "
+    "big-endian words of the prefix mod 2^32) via a recursive spec function; the result does not mention the chunk length; verify is "
+    "true iff equal; the sender's EOF checksum is the filestore checksum of the prefix it announces (source contracts).",
+    "Relative to the ASSUMED streaming contract of crcmod (update(a);update(b) == update(a+b), digest = CRC_name(bytes fed)) and of "
+    "struct.pack/int.from_bytes/ljust, which are only tested boundedly against bit-serial reference CRCs (listed under "
+    "bounded_standins, never counted): that a table entry of crcmod is right is NOT proved. Byte-sequence obligations are discharged by "
+    "cvc5 (--strings-exp) or the z3 binary.",
+    "filestore.NativeFilestore.{calculate_checksum, _generate_crc_calculator, _verify_checksum, checksum_type_to_crcmod_str, "
+    "read_from_opened_file}, VirtualFilestore.verify_checksum, crc.calc_modular_checksum; source _checksum_calculation, cancel/EOF "
+    "contracts (clauses tagged C09).",
+    [STUBS, "stubs/oslib.py: host file system model and crcmod/struct axioms"], ["stubs/oslib.py"])
+PROPERTIES["C09"]["conformance"] = ["crc"]
+
+PROPERTIES["C17"] = P(
+    "proof",
+    "Each NativeFilestore operation (create, delete, rename, replace, create/remove directory, truncate, write at offset, read at "
+    "offset, size, exists, is-directory) is proved, for all paths, contents, offsets and payloads, against a reference model over "
+    "kind/content maps: the status code is exactly the one of the case that holds, success implies the effect, any refusal or "
+    "exception leaves every path unchanged, a write is read back identically, bytes before the offset and behind the data are kept, a "
+    "gap reads as zero, no other path changes.",
+    "Relative to the POSIX axioms of stubs/oslib.py (exception class per failed precondition, rename overwrites silently, zero fill), "
+    "cross-checked boundedly in a scratch directory (bounded_standins). Operation SEQUENCES follow by induction over the per-operation "
+    "contracts (each is total over the model state). list_directory is not verified.",
+    "filestore.NativeFilestore.{create_file, delete_file, rename_file, replace_file, create_directory, remove_directory, truncate_file, "
+    "write_data, read_data, file_size, file_exists, is_directory}.",
+    ["stubs/oslib.py: host file system model (kind/content/parent), tree well-formedness"], ["stubs/oslib.py"])
+PROPERTIES["C17"]["conformance"] = ["os"]
+for _p in ("C10", "C20", "C07"):
+    PROPERTIES[_p]["conformance"] = ["pdu"]
+
 NOT_APPLICABLE = {
     "C01": "not yet claimed by this revision: the local obligations exist (tagged C01 on the checksum guard, EOF fields, progress and "
            "relaying contracts) but the composition lemma over the channel model is not built",
@@ -177,6 +211,4 @@ NOT_APPLICABLE = {
            "checked under C04/C05/C07/C10/C13 (clauses tagged C02), the chaining lemmas are not built",
     "C03": "bounded-fault recovery of the composed system is a liveness property over schedules that contracts cannot express; its "
            "necessary local conditions are checked under C04, C06, C08, C18 (clauses tagged C03)",
-    "C09": "no contract over byte sequences for NativeFilestore.calculate_checksum / crc.calc_modular_checksum built yet",
-    "C17": "no contract for NativeFilestore against OS axioms built yet",
 }
